@@ -1,7 +1,8 @@
 (* Correspondence entry point for C20.
    case = VTup (VInt kind :: args):
      0 "res"     [VStr cwd; VList [VStr relative file ...]; VStr all_expr]
-                 -> VTup [sorted File.resolve_filenames | VErr; textFile(...).collect() | VErr]
+                 -> VTup [sorted File.resolve_filenames; textFile(...).collect(); file names in the order
+                          wholeTextFiles delivers them; the same for binaryFiles]   (or VErr each)
                     (every file's content is its absolute path)
      1 "fnm"     [VStr pattern]  -> VInt bit mask of fnmatch(name, pattern) over all names of length <= 5
                                     over the alphabet 'a' '.' '/' (by length, then lexicographically)
@@ -31,8 +32,8 @@ Definition enc_names (l : list (list N)) : val := VList (map VStr l).
 Definition run_res (fs : fsys) (e : list N) : val :=
   if negb (wf_fs fs) then VBad else
   match read_order fs e with
-  | Fail m => VTup [VErr m; VErr m]
-  | Names l => VTup [enc_names l; enc_names (map (abs_path fs) l)]
+  | Fail m => VTup [VErr m; VErr m; VErr m; VErr m]
+  | Names l => VTup [enc_names l; enc_names (map (abs_path fs) l); enc_names l; enc_names l]
   end.
 
 Fixpoint words (alpha : list N) (n : nat) : list (list N) :=
